@@ -139,6 +139,16 @@ def readEgo (o : Nat) (s : St) : St := { s with reg := upd2 s.reg o 1 s.ego }
 /-- `with ego_position_vector_lock: self.ego_position_vector = …refresh_with_tpv_data(tpv)` (fresh PV `v`) -/
 def egoSwap (v : Nat) (s : St) : St := { s with ego := v, egoHist := v :: s.egoHist }
 
+/-- a store to `self.ego_position_vector` that is NOT the publication of a fix: the intermediate value of a refresh that
+assigns the attribute more than once (new position, accuracy flag of the previous fix, …).  No compiled program contains
+it – `refresh_ego_position_vector` rebinds the attribute exactly once (`ego_single_store`, regenerated from the source);
+used by `Props.C15.pv_was_ego_witness` only, which shows what a second store would break. -/
+def egoStore (v : Nat) (s : St) : St := { s with ego := v }
+
+/-- the refresh with two stores inside its `ego_position_vector_lock` section (readers take no lock, the section does not
+make the two stores atomic for them) -/
+def twoStoreRefresh (mid v : Nat) : List (Instr St) := [.acq lkEgo, .blk (egoStore mid), .blk (egoSwap v), .rel lkEgo]
+
 /-- `link_layer.send` of an originated packet carrying the SN and PV read before -/
 def sendPkt (o kind ref : Nat) (useSN : Bool) (s : St) : St :=
   { s with sent := ⟨kind, ref, if useSN then s.reg o 0 else 0, s.reg o 1⟩ :: s.sent }
@@ -269,6 +279,23 @@ def lsRegisterOrQueue (fx : Bool) (o d : Nat) (s : St) : St :=
     let t := lsRegCore fx o r d s
     { t with lsQueued := upd t.lsQueued d (r :: t.lsQueued d) }
 
+/-- the registration section WITHOUT the retransmit-counter test (`if entry is not None and entry.ls_pending:` alone, as
+if the placeholder LocTE could not disappear while the lookup runs).  Not the code: `ls_request_checks_counter`
+(regenerated from the source) says the section reads `_ls_retransmit_counters`; used by
+`Props.C15.ls_exactly_once_counter_witness` only.  `ls_pending := True` lands on the object fetched by `lsEnsure` – an
+orphan if a refresh_table dropped the still unflagged placeholder in between. -/
+def lsRegCoreNC (o r d : Nat) (s : St) : St :=
+  if s.loct d && s.pending d then
+    { s with lsBuf := upd s.lsBuf d (s.lsBuf d ++ [r]), reg := upd2 s.reg o 4 0 }
+  else
+    { s with pending := if s.loct d then upd s.pending d true else s.pending,
+             lsLost := upd s.lsLost d (s.lsBuf d ++ s.lsLost d),
+             lsBuf := upd s.lsBuf d [r], lsCnt := upd s.lsCnt d (some 0), reg := upd2 s.reg o 4 1 }
+
+def lsRegisterOrQueueNC (o d : Nat) (s : St) : St :=
+  let t := lsRegCoreNC o (s.reg o 6) d s
+  { t with lsQueued := upd t.lsQueued d (s.reg o 6 :: t.lsQueued d) }
+
 /-- second `_ls_lock` section of gn_ls_request: `old = pop; if old: old.cancel(); _ls_timers[dest] = timer` -/
 def lsStoreTimer (o d : Nat) (s : St) : St :=
   { s with lsTimer := upd s.lsTimer d (some o),
@@ -360,6 +387,31 @@ def rxPV (o : Nat) (s : St) : St := if s.reg o 9 = 1 then { s with ePV := upd s.
 
 /-- the repaired new_*_packet: get-or-create, duplicate detection and PV update in ONE `loc_t_lock` section -/
 def rxRecv (mh : Bool) (o a k : Nat) (s : St) : St := rxPV o (rxDpl mh o a k (rxGetOrCreate o a s))
+
+/-! ### neighbour scan (LocationTable.get_neighbours: `for … in self.loc_t.items()`)
+Every origination and every forwarder scans the table.  A dict iterator remembers the size of the dict when it is
+created and raises RuntimeError ("dictionary changed size during iteration") at its next step if the size differs.
+The table object grows in place exactly when a LocTE object is constructed (`newEntry`; refresh_table REPLACES the dict,
+`Generated.Locks.rebinds`), so `eNext` stands for the size of the dict being scanned.  The compiled programs do not
+contain the scan (it has no effect on the modelled state when it runs as one `loc_t_lock` section:
+`scan_in_section`); the two halves are used by `Props.C15.no_thread_fails_scan_witness`. -/
+
+/-- `iter(self.loc_t.items())`: register 14 := size seen by the iterator -/
+def scanBegin (o : Nat) (s : St) : St := { s with reg := upd2 s.reg o 14 s.eNext }
+
+/-- the iterator's next step: raises (the scanning thread FAILS) when the table grew since `scanBegin` -/
+def scanNext (o : Nat) (s : St) : St := if s.reg o 14 = s.eNext then s else { s with err := s.err + 1 }
+
+/-- get_neighbours as it is: the whole scan inside one `loc_t_lock` section -/
+def scanLocked (o : Nat) : List (Instr St) := [.acq lkLocT, .blk (scanBegin o), .blk (scanNext o), .rel lkLocT]
+
+/-- the scan without the lock -/
+def scanUnlocked (o : Nat) : List (Instr St) := [.blk (scanBegin o), .blk (scanNext o)]
+
+/-- executed without interruption – i.e. as ONE block, which is what the `loc_t_lock` section makes of it
+(`blocks_get_neighbours`, `guarded`, `Props.C15.sections_atomic`) – the scan never raises -/
+theorem scan_in_section (o : Nat) (s : St) : (scanNext o (scanBegin o s)).err = s.err := by
+  simp [scanNext, scanBegin, upd2]
 
 /-! ## operations and their programs -/
 
@@ -458,6 +510,15 @@ def compileT : Op → List TI
 
 def compile (op : Op) : List (Instr St) := (compileT op).map TI.erase
 
+/-- `guc o r d true` with the registration section replaced by the variant without the counter test (witness only) -/
+def gucNoCounterT (o r d : Nat) : List TI :=
+  [TI.loc (gucInit o r)] ++ tsect lkLocT (.gblk o 5 1 (gucLookup true o d)) ++
+    tsect lkSN (.gblk o 3 1 (getSN o)) ++ [TI.gblk o 3 1 (readEgo o), TI.gblk o 3 1 (gucSend o d)] ++
+    [TI.acq lkLs, TI.acq lkLocT, TI.gblk o 3 2 (lsEnsure d), TI.rel lkLocT, TI.gblk o 3 2 (lsRegisterOrQueueNC o d), TI.rel lkLs] ++
+    sendLsReq o d (lsStoreTimer o d)
+
+def gucNoCounter (o r d : Nat) : List (Instr St) := (gucNoCounterT o r d).map TI.erase
+
 /-- a thread performs its operations one after the other -/
 def threadProg (ops : List Op) : List (Instr St) := (ops.map compile).flatten
 
@@ -480,6 +541,21 @@ theorem blocks_cbf_forwarding :
 theorem blocks_refresh_ego :
     shape .Router_refresh_ego_position_vector = [([.Router_ego_position_vector_lock], [.Router_ego_position_vector])] := by
   decide
+
+/-- **one store per refresh**: `refresh_ego_position_vector` can rebind `self.ego_position_vector` exactly once per call
+(`egoSwap` is ONE store; readers load the attribute without the lock, so every value ever stored is a value a packet can
+carry), and nothing else rebinds it after construction (`setup_gn_address` runs inside `__init__`) -/
+theorem ego_single_store :
+    rebindCount .Router_refresh_ego_position_vector .Router_ego_position_vector = 1 ∧
+    (rebinds.all fun r => r.2.1 != .Router_ego_position_vector || r.1 == .Router_refresh_ego_position_vector
+      || r.1 == .Router_setup_gn_address) = true := by decide +kernel
+
+/-- the registration section of gn_ls_request READS the retransmit counters (the in-progress test of `lsRegCore true`:
+`… or sought_gn_addr in self._ls_retransmit_counters`) besides writing them -/
+theorem ls_request_checks_counter :
+    ((blocks .Router_gn_ls_request).head?.map fun b =>
+      b.1 == [.Router__ls_lock] && b.2.contains (.Router__ls_retransmit_counters, .read) &&
+        b.2.contains (.Router__ls_retransmit_counters, .write)) = some true := by decide +kernel
 
 /-- gn_ls_request: two `_ls_lock` sections – registration (buffers, counters, ls_pending), then the timer store -/
 theorem blocks_ls_request :
